@@ -6,6 +6,9 @@ pub mod c02;
 #[rustfmt::skip]
 pub mod c02_tuples;
 pub mod c04;
+pub mod c05;
+pub mod c06;
+pub mod c07;
 pub mod c09;
 pub mod c10;
 pub mod c11;
@@ -19,6 +22,9 @@ pub fn run(id: &str, rep: &mut Report) -> bool {
         "C01" => c01::run(rep),
         "C02" => c02::run(rep),
         "C04" => c04::run(rep),
+        "C05" => c05::run_part_a(rep),
+        "C06" => c06::run_part_a(rep),
+        "C07" => c07::run_part_a(rep),
         "C09" => c09::run(rep),
         "C10" => c10::run(rep),
         "C11" => c11::run(rep),
@@ -37,6 +43,9 @@ pub fn replay(id: &str, case: &Value) -> Result<Vec<(String, String)>, String> {
         "C01" => c01::replay(case),
         "C02" => c02::replay(case),
         "C04" => c04::replay(case),
+        "C05" => c05::replay_a(case),
+        "C06" => c06::replay_a(case),
+        "C07" => c07::replay_a(case),
         "C09" => c09::replay(case),
         "C10" => c10::replay(case),
         "C11" => c11::replay(case),
